@@ -261,7 +261,7 @@ class Streams:
             if t is None or depth == 0 or len(t) == 0 or len(t) > 80: return
             n = len(t)
             ops = ['refined', 'boundary', 'interfaces', 'take', 'compress', 'refined_by', 'union', 'sub', 'slice', 'bname']
-            for op in rng.sample(ops, 3 if self.quick else 6):
+            for op in rng.sample(ops, 3 if self.quick else 4):
                 if op in ('refined', 'boundary', 'interfaces'):
                     u = add(label + '.' + op, lambda: getattr(t, op))
                 elif op == 'take':
@@ -387,10 +387,14 @@ class Streams:
             if t.opposites is not t.transforms and t.opposites != t.transforms:
                 seqs.append((label + ':opposites', t.opposites, None))   # opposite sides: element references need not match
         seqs += self.synthetic()
+        cap = 110 if self.quick else 700
+        if len(seqs) > cap:
+            self.c.count('sequences-generated', len(seqs))
+            seqs = [seqs[i] for i in sorted(rng.sample(range(len(seqs)), cap))]
         pool = [ts for _, ts, _ in seqs]
         self.seqs = seqs
         seen = set()
-        maxel = 8 if self.quick else 24
+        maxel = 8 if self.quick else 16
         for label, ts, refs in seqs:
             try:
                 sseq = ser_seq(ts)
